@@ -26,7 +26,7 @@ CLAIMS = {
              'closed on [0,1), and user code only ever sees copies of the stored points; for histories '
              'with resumes, every renumbering of the shells is followed by a full checkpoint write, '
              'so points_<i> is never left next to a stale bound_<i>.',
-        ref='DESIGN.md sections 4 C01, 10.9-10.13, 10.16, 10.17, rules M4 M5 L1 L2 L3 L4 A5 Q3 T8 M3 M6 F6 P4 P6 P8 P14 T9 I1', note=TRUST +
+        ref='DESIGN.md sections 4 C01, 10.9-10.13, 10.16, 10.17, 10.18, rules M4 M5 L1 L2 L3 L4 A5 Q3 T8 M3 M6 F6 P4 P6 P8 P14 T9 I1 N4', note=TRUST +
         ' contains() of each bound is numerically what it says (C07 leaf assumption).'),
     'C02': dict(
         technique='lockstep path analysis over per-shell records; dirty=>recompute post-dominance '
@@ -57,7 +57,7 @@ CLAIMS = {
              'transfer set and its consumed marks are rewritten by every checkpoint update and '
              'restored into the attributes they came from; a pool job fills and returns a private '
              'copy of the bound, never the caller\'s object (no proposal is handed out twice).',
-        ref='DESIGN.md sections 4 C03, 10.9-10.13, 10.16, 10.17, rules L1-L5 L3b S1 F5 F7 A5 P4 P1 P2 P9 P12 M9 I1', note=TRUST +
+        ref='DESIGN.md sections 4 C03, 10.9-10.13, 10.16, 10.17, 10.18, rules L1-L5 L3b S1 F5 F7 A5 P4 P1 P2 P9 P12 M9 I1 F11 F12', note=TRUST +
         ' The user likelihood is assumed pure.'),
     'C05': dict(
         technique='effect analysis over the resolved call graph vs. key tables extracted from '
@@ -127,7 +127,7 @@ CLAIMS.update({
              'ellipsoid built from them through splits; caches are reset when members change; at '
              'the leaf, the ellipsoid sampler draws direction x u^(1/n) through the matrix whose '
              'inverse contains() applies.  Leaf floating-point geometry is assumed.',
-        ref='DESIGN.md sections 4 C07, 10.9-10.11, 10.16, 10.17, rules M1 M2 M3 A4 M6 L1 L6 T9 V2 V3 F9', note=TRUST),
+        ref='DESIGN.md sections 4 C07, 10.9-10.11, 10.16, 10.17, 10.18, rules M1 M2 M3 A4 M6 L1 L6 T9 V2 V3 F9 N4 P17', note=TRUST),
     'C08': dict(
         technique='sibling-agreement (serial vs pool branch) and def-use dependency rules',
         text='WEAK claim, structural necessary conditions only: the pool branch of '
@@ -140,7 +140,7 @@ CLAIMS.update({
              'the proposal region times (n_sample - n_reject)/n_sample and the ellipsoid volume is '
              'log|det M| + (n/2) log pi - lgamma(n/2+1) for the matrix M that contains() inverts.  Uniformity and volume calibration as '
              'distributional facts are NOT decided by static analysis.',
-        ref='DESIGN.md sections 4 C08, 10.9-10.13, 10.16, 10.17, rules A3 T8 Q1 Q2 P4 M1 M9 K2 V2 I2 N3', note=TRUST),
+        ref='DESIGN.md sections 4 C08, 10.9-10.13, 10.16, 10.17, 10.18, rules A3 T8 Q1 Q2 P4 M1 M9 K2 V2 I2 N3 N4 G8', note=TRUST),
     'C09': dict(
         technique='writer/reader/updater table extraction and comparison; definite-assignment '
                   'analysis of constructors against the observation interface read set',
@@ -187,7 +187,7 @@ CLAIMS.update({
              'arithmetic (scalar and vectorised evaluation see the same coordinates); no parameter '
              'that may be its mutable default object is modified in place, no unlisted global '
              'write, no class-level mutable attribute.',
-        ref='DESIGN.md sections 4 C11, 10.9-10.13, 10.16, 10.17, rules F1-F5 F7 F8 F9 F10 G1 G3 K2', note=TRUST +
+        ref='DESIGN.md sections 4 C11, 10.9-10.13, 10.16, 10.17, 10.18, rules F1-F5 F7 F8 F9 F10 G1 G3 K2 F12', note=TRUST +
         ' NumPy / SciPy / sklearn are deterministic given their seeds.'),
     'C12': dict(
         technique='control-dependence phase guards, who-may-write tables, extend-prefix lockstep '
@@ -202,7 +202,7 @@ CLAIMS.update({
              'incremental update and comes back from a checkpoint as the bool its setter accepts.  '
              'Known finding K1 (listed in known_findings.json): the discard argument of run() is '
              'ignored once exploration has ended.',
-        ref='DESIGN.md sections 4 C12, 10.9-10.14, 10.16, 10.17 (known finding K1), 10.18, rules T6 F6 L1 L3 T3 T4 A2 A6 P4 P9 P12 I1 G6 T11', note=TRUST),
+        ref='DESIGN.md sections 4 C12, 10.9-10.14, 10.16, 10.17 (known finding K1), 10.18, rules T6 F6 L1 L3 T3 T4 A2 A6 P4 P9 P12 I1 G6 T11 U1', note=TRUST),
     'C13': dict(
         technique='lockstep path analysis of the parallel per-ellipsoid records, '
                   'validate-before-mutate and post-dominance (cache reset) on CFGs',
